@@ -1021,6 +1021,7 @@ pub fn main(opts: &Opts) {
         report.model_used = true;
     } else {
         correspondence(&mut rng, opts, &mut report);
+        pending_detach_correspondence(&mut report);
     }
     report.write(&opts.report);
     println!("life: {} cases, {} non-trivial, {} findings", report.evaluations, report.nontrivial.len(), report.findings.len());
@@ -1028,6 +1029,51 @@ pub fn main(opts: &Opts) {
 
 /// the two hand-written compositions (session end handshake, link detach handshake) against the
 /// implementation, on scenarios small enough to be mapped one to one
+/// the search for a detach the peer has already sent (`Amqp/PendingDetach.lean`, driver prefix `B`): unread
+/// deliveries queued ahead of the peer's detach, then the application's own detach / close of the same kind;
+/// "found" is read off the wire (the client's only detach answers in kind) and off the call's result
+fn pending_detach_correspondence(report: &mut Report) {
+    if !driver_available() {
+        return;
+    }
+    let mut lines = vec![];
+    let mut imp = vec![];
+    let mut cases = vec![];
+    for feeds in [0usize, 1, 2, 5] {
+        for (closed, err) in [(true, true), (true, false), (false, false), (false, true)] {
+            let local = if closed { if err { Ev::LCloseErr(0) } else { Ev::LClose(0) } } else { Ev::LDetach(0) };
+            let mut events: Vec<Ev> = (0..feeds).map(|_| Ev::PFeed(0)).collect();
+            events.push(Ev::PDetach(0, closed, err));
+            events.push(local);
+            let case = Case { sessions: 1, links: vec![(0, false)], events, allow_mismatch: false, window: 1000 };
+            let obs = run(&case);
+            report.evaluations += 1;
+            report.count("pending_detach_cases");
+            // the frames of the script only (a liveness probe follows it)
+            let upto = obs.marks.get(case.events.len()).copied().unwrap_or(obs.frames.len());
+            let detaches: Vec<&Seen> = obs.frames[..upto].iter().filter(|f| f.kind == "detach" && f.handle == Some(0)).collect();
+            let in_kind = detaches.len() == 1 && detaches[0].closed == closed;
+            let reported = obs.calls.iter().any(|c| c.2.is_some() && (c.3 != "ok") == err);
+            let item = format!("d{}{}", closed as u8, err as u8);
+            lines.push(format!("B take {}{}", "o ".repeat(feeds), item));
+            imp.push(if in_kind && reported { format!("found {} left=0", item) } else { format!("missed (detaches {:?}, calls {:?})", detaches.iter().map(|d| d.closed).collect::<Vec<_>>(), obs.calls.iter().map(|c| c.3.clone()).collect::<Vec<_>>()) });
+            cases.push(case);
+        }
+    }
+    match run_driver(&lines) {
+        Ok(model) => {
+            report.model_lines += model.len() as u64;
+            for i in 0..lines.len() {
+                if model[i] != imp[i] {
+                    report.finding(Finding { kind: "disagreement", key: "model-vs-implementation:pending-detach".into(), description: format!("{} -> implementation {} model {}", lines[i], imp[i], model[i]), replay: json!({"property": "C13", "module": "life", "case": cases[i].to_json(), "model_lines": [lines[i].clone()], "model": [model[i].clone()]}) });
+                    break;
+                }
+            }
+        }
+        Err(e) => report.notes.push(format!("model driver failed: {}", e)),
+    }
+}
+
 fn correspondence(rng: &mut Rng, opts: &Opts, report: &mut Report) {
     if !driver_available() {
         report.notes.push("model driver not available: correspondence skipped".into());
